@@ -284,3 +284,50 @@ F("D10b", "C09", UT, "  return int.from_bytes(bytes_val, 'big')", "  return int.
 F("D10c", "C09", EC, "  x = gmpy.mpz(util.Bytes2Int(key.x))\n  y = gmpy.mpz(util.Bytes2Int(key.y))\n  return (x, y)", "  x = gmpy.mpz(util.Bytes2Int(key.x))\n  y = gmpy.mpz(util.Bytes2Int(key.y))\n  return (y, x)", "R-C09-BYTES", "PublicPoint swaps coordinates")
 F("D10d", "C09", UT, "    return bytes.fromhex('0' + hexstr_val)", "    return bytes.fromhex(hexstr_val + '0')", "R-C09-BYTES", "odd hex padded on the right")
 T("D10e", "C09", EC, "    si = gmpy.invert(s, self.n)\n    a = z * si % self.n\n    b = r * si % self.n\n    return (a, b)", "    inv_s = gmpy.invert(s, self.n)\n    return (z * inv_s % self.n, r * inv_s % self.n)", "HNP without temps")
+
+# ---------------------------------------------------------------------------------- C02
+ES = L + "ecdsa_sig_checks.py"
+E1 = L + "ec_single_checks.py"
+EA = L + "ec_aggregate_checks.py"
+CR = L + "cr50_u2f_weakness.py"
+F("B01", "C02", EC, "            if y[0] == p[0]:\n              if y[1] == p[1]:\n                res[i] = dl\n              elif y[1] == -p[1] % self.mod:\n                res[i] = -dl",
+  "            if y[0] == p[0]:\n              res[i] = dl", "R-C02-RELEASE", "BatchDL: y-coordinate not verified")
+F("B02", "C02", EC, "              if y[1] == p[1]:\n                res[i] = dl\n              elif y[1] == -p[1] % self.mod:\n                res[i] = -dl",
+  "              if y[1] == p[1]:\n                res[i] = -dl\n              elif y[1] == -p[1] % self.mod:\n                res[i] = dl", "R-C02-RELEASE", "BatchDL: signs swapped")
+F("B02b", "C02", EC, "            y = self.Multiply(base, dl)\n            if y[0] == p[0]:", "            y = self.Multiply(base, dl + 1)\n            if y[0] == p[0]:", "R-C02-RELEASE", "BatchDL verifies a different scalar")
+T("B02c", "C02", EC, "      if p == INFINITY:\n        res[i] = 0\n        continue", "      if p[0] is None:\n        res[i] = 0\n        continue", "infinity tested through the x-coordinate (equivalent for well-formed points)")
+F("B11", "C02", EC, "              res[i] = \"key - (%x, %x) = %d * G\" % (q[0], q[1], dl)", "              res[i] = \"key - (%x, %x) = %d * G\" % (q[0], q[1], -dl)", "R-C02-RELEASE", "relation with -dl")
+F("B12", "C02", EC, "                res[key2] = \"key - (%x, %x) = %d * G\" % (p[0], p[1], -dl)\n      negated.append(self.Negate(p))",
+  "                res[key2] = \"key - (%x, %x) = %d * G\" % (p[0], p[1], -dl)\n      if res[i] is None:\n        negated.append(self.Negate(p))", "R-C02-RELEASE", "negated extended conditionally (alignment lost)")
+F("B12b", "C02", EC, "                key2 = j - len(other_points)\n", "                key2 = j - len(other_points) + 1\n", "R-C02-RELEASE", "mirrored index off by one")
+F("B12c", "C02", EC, "            diff2 = self.Multiply(base, dl)\n            if diff == diff2:", "            diff2 = self.Multiply(base, dl)\n            if diff[0] == diff2[0]:", "R-C02-RELEASE", "difference verified on x only")
+F("B08", "C02", EC, "        res[k % num_points] = int(dlog * multipliers[k // num_points])", "        res[k // num_points] = int(dlog * multipliers[k % num_points])", "R-C02-CODEC", "reader pair swapped")
+F("B08b", "C02", EC, "        all_points[i + num_points * j] = self.Multiply(point, inverse)", "        all_points[j + len(multipliers) * i] = self.Multiply(point, inverse)", "R-C02-CODEC", "writer uses another stride")
+F("B14", "C02", ES, "    if guess_pk in pks:\n      for idx in pks[guess_pk]:\n        issuer_dlogs[idx] = guesses[i]", "    for idx in pks.get(guess_pk, range(len(guesses))):\n      issuer_dlogs[idx] = guesses[i]", "R-C02-SANITISE", "membership test dropped")
+F("B14b", "C02", ES, "        issuer_dlogs[idx] = guesses[i]", "        issuer_dlogs[idx] = guesses[i - 1]", "R-C02-SANITISE", "neighbouring guess recorded")
+F("B15", "C02", ES, "        if i in issuer_dlogs:\n          dlog = format(int(issuer_dlogs[i]), \"x\")\n          logging.warning(\n              \"Check biased nonce %s failed.",
+  "        if i in issuer_dlogs or guesses:\n          dlog = format(int(issuer_dlogs.get(i, 0)), \"x\")\n          logging.warning(\n              \"Check biased nonce %s failed.", "R-C02-SANITISE", "weak whenever any guess exists")
+F("B16", "C02", CR, "    if x1 != x2:\n      raise ArithmeticError(\"Sanity check failed\")\n", "", "R-C02-U2F", "U2F cross-check removed")
+F("B16b", "C02", E1, "      points = [ec_util.PublicPoint(key.ec_info) for key in keys]\n      discrete_logs = curve.ExtendedBatchDL(points)", "      points = [ec_util.PublicPoint(key.ec_info) for key in artifacts]\n      discrete_logs = curve.ExtendedBatchDL(points)", "R-C02-ALIGN", "points of the whole batch, results indexed by partition")
+F("B16c", "C02", E1, "          util.AttachInfo(key.test_info, consts.INFO_NAME_DISCRETE_LOG,\n                          discrete_log)", "          util.AttachInfo(keys[i - 1].test_info, consts.INFO_NAME_DISCRETE_LOG,\n                          discrete_log)", "R-C02-ALIGN", "dlog recorded on the neighbour")
+F("B16d", "C02", EA, "        if result[i] is not None:", "        if result[i - 1] is not None:", "R-C02-ALIGN", "tests the neighbour's entry")
+T("B16e", "C02", EC, "            y = self.Multiply(base, dl)\n            if y[0] == p[0]:\n              if y[1] == p[1]:\n                res[i] = dl\n              elif y[1] == -p[1] % self.mod:\n                res[i] = -dl",
+  "            cand = self.Multiply(base, dl)\n            if cand[0] == p[0] and cand[1] == p[1]:\n              res[i] = dl\n            elif cand[0] == p[0] and cand[1] == -p[1] % self.mod:\n              res[i] = -dl", "BatchDL verification with `and`")
+
+# ---------------------------------------------------------------------------------- C10
+F("B03", "C10", EC, "    giant_steps = 2 + n // t\n", "    giant_steps = 1 + n // t\n", "R-C10-COVER", "one giant step too few")
+F("B04", "C10", EC, "    t = 2 * table_size - 1\n", "    t = 2 * table_size\n", "R-C10-COVER", "giant step 2T leaves a gap")
+T("B05", "C10", EC, "    t = 2 * table_size - 1\n", "    t = 2 * table_size - 2\n", "smaller giant step still covers")
+F("B05b", "C10", EC, "          for dl in [j * t + self._table[x], j * t - self._table[x]]:", "          for dl in [j * t + self._table[x]]:", "R-C10-COVER", "negative offsets not tried")
+F("B06", ["C10"], EC, "    if table_size > self._table_size:\n      # TODO(pedroysb): An improvement would be to generate from\n      # self._table_size up to table_size.\n      self._table = self.PointTable(base, table_size)",
+  "    if table_size < self._table_size:\n      # TODO(pedroysb): An improvement would be to generate from\n      # self._table_size up to table_size.\n      self._table = self.PointTable(base, table_size)", "R-C10-CACHE", "rebuild guard inverted")
+F("B07", "C10", EC, "      self._table = self.PointTable(base, table_size)\n      self._table_size = table_size", "      self._table = self.PointTable(base, table_size)\n      self._table_size = 2 * table_size", "R-C10-CACHE", "descriptor larger than contents")
+F("B07b", "C10", EC, "      self._table = self.PointTable(base, max_diff)\n      self._table_size = max_diff", "      self._table = self.PointTable(base, max_diff // 2)\n      self._table_size = max_diff", "R-C10-CACHE", "difference table too small for its descriptor")
+F("B09", "C10", EC, "    for j in range(0, bits - 31, 8):\n      multipliers.append(2**j)", "    for j in range(0, bits - 31, 16):\n      multipliers.append(2**j)", "R-C10-FORMS", "byte shifts in steps of 16")
+F("B09b", "C10", EC, "    for j in range(2, quad_words + 1):", "    for j in range(2, quad_words):", "R-C10-FORMS", "longest word repetition dropped")
+F("B10", "C10", EC, "    discrete_logs = self.BatchDL(all_points, 2**32)", "    discrete_logs = self.BatchDL(all_points, 2**31)", "R-C10-FORMS", "search bound 2^31")
+F("B13", "C10", EC, "    r = (n + m - 1) // m\n", "    r = n // m\n", "R-C10-TABLE", "table rows rounded down")
+F("B13b", "C10", EC, "        res[x] = im + j\n", "        res[x] = im + j + 1\n", "R-C10-TABLE", "table index off by one")
+F("B13c", "C10", EC, "    for i in range(1, n):\n      res[i] = self.AddJacobian(res[i - 1], base_jac)", "    for i in range(2, n):\n      res[i] = self.AddJacobian(res[i - 1], base_jac)", "R-C10-TABLE", "PointSequence skips index 1")
+F("B13d", "C10", EC, "        if x is None:\n          continue  # key is a duplicate", "        if x is None or j == 0:\n          continue  # key is a duplicate", "R-C10-DUP", "first partner always skipped")
+F("B13e", "C10", EC, "    if not points or len(points) + len(other_points) < 2:\n      return res", "    if not points or len(points) < 2:\n      return res", "R-C10-DUP", "single key never compared with history list")
